@@ -134,7 +134,7 @@ def oracle_perm(case):
 
 
 # ------------------------------------------------------------------ (b) history machine
-REQS = [(0.05, 16), (0.21, 64), (0.37, 7), (0.49, 128)]
+REQS = [(0.05, 16), (0.21, 64), (0.37, 7), (0.49, 128), (0.11, 2700), (0.3, 1600)]   # incl. single segments shorter than N=3000
 
 
 class AnalyzerHistory(TracedMachine):
@@ -148,20 +148,23 @@ class AnalyzerHistory(TracedMachine):
         self.did_full = self.did_single = False
 
     @initialize(seed=st.integers(0, 10 ** 6), mode=st.sampled_from(["auto", "csd"]), order=st.sampled_from([-1, 0, 1, 2]),
-                sched=st.sampled_from(["ltf", "vectorized_ltf", "new_ltf", "lpsd"]), band=st.booleans())
-    def init(self, seed, mode, order, sched, band):
-        self.step("init", seed=seed, mode=mode, order=order, sched=sched, band=band)
+                sched=st.sampled_from(["ltf", "vectorized_ltf", "new_ltf", "lpsd"]), band=st.booleans(),
+                backend=st.sampled_from(["numba", "numpy"]), offset=st.sampled_from([0.0, 5.0]))
+    def init(self, seed, mode, order, sched, band, backend, offset):
+        self.step("init", seed=seed, mode=mode, order=order, sched=sched, band=band, backend=backend, offset=offset)
 
-    def do_init(self, seed, mode, order, sched, band):
+    def do_init(self, seed, mode, order, sched, band, backend="numba", offset=0.0):
         import numba
         from speckit import SpectrumAnalyzer
         self._t0 = numba.get_num_threads()
         rng = np.random.default_rng(seed)
         N = 3000
-        x = rng.standard_normal(N)
+        x = rng.standard_normal(N) + offset
         y = 0.5 * np.concatenate([[0.0], x[:-1]]) + rng.standard_normal(N)
         self.data = np.vstack([x, y]) if mode == "csd" else x
-        self.kw = dict(order=order, scheduler=sched, Jdes=20, Kdes=10, olap=0.75, backend="numba")
+        self.data0 = self.data.copy()          # fresh analyses always start from a pristine copy of the record
+        self.kw = dict(order=order, scheduler=sched, Jdes=20, Kdes=10, olap=0.75, backend=backend)
+        self.backend = backend
         if band:
             self.kw["band"] = (0.02, 0.3)
         self.fs = 1.0
@@ -170,10 +173,16 @@ class AnalyzerHistory(TracedMachine):
 
     def fresh(self):
         from speckit import SpectrumAnalyzer
-        return SpectrumAnalyzer(self.data, self.fs, **self.kw)
+        return SpectrumAnalyzer(self.data0.copy(), self.fs, **self.kw)
 
     def _store(self, res, key):
         snap = {k: np.array(getattr(res, k), copy=True) for k in RAWF + ("f", "L", "navg")}
+        # the same request on a fresh analyzer over a pristine copy of the record (no history at all)
+        an = self.fresh()
+        ref = an.compute() if key == "full" else an.compute_single_bin(REQS[key[1]][0] * self.fs, L=REQS[key[1]][1])
+        v = []
+        raw_equal(res, ref, "vs_fresh_analyzer:" + str(key), v)
+        self.viol.extend(v)
         if key in self.first:
             v = []
             raw_equal(res, self.first[key], "repeat:" + str(key), v)
@@ -275,7 +284,8 @@ class AnalyzerHistory(TracedMachine):
 
     def summary(self):
         nt = self.did_full and self.did_single and self.changes >= 1
-        return nt, ["machine:full+single" if self.did_full and self.did_single else "machine:partial"]
+        return nt, ["machine:full+single" if self.did_full and self.did_single else "machine:partial",
+                    "machine:backend=" + str(getattr(self, "backend", None))]
 
 
 PARTS = [
